@@ -9,7 +9,9 @@
                   attemptReconnect (dial / handshake / system.local / REGISTER on the ring's hosts, then on the contact
                   points: a finite number of round trips, each bounded by ConnectTimeout / Timeout); on success refreshRing
     HandleError / withConnHost (other goroutines): c.reconnect()
-    close():      if CAS(state, Started, Closing) { c.quit <- struct{}{} }      -- UNBUFFERED: waits for the heartbeat goroutine
+    close():      if Swap(state, Closing) == Started { c.quit <- struct{}{} }   -- UNBUFFERED: waits for the heartbeat goroutine
+                  (before the repair of KF-C17-4: `if CAS(state, Started, Closing)` - a heartbeat goroutine scheduled after
+                   close() still found Starting and ran for good)
                   close the current control connection
     Session.Close: isClosing guard (one caller gets through); pool.Close(); control.close(); debouncers' stop(); cancel()
 
@@ -62,7 +64,7 @@ inductive Act where
   | rcStep             -- one round trip of the running reconnect attempt is over
   | rcDone             -- the attempt is over (success incl. refreshRing, or every host failed): reconnecting = 0
   | otherEnter (k : Nat)  -- HandleError / withConnHost on another goroutine calls c.reconnect()
-  | close              -- controlConn.close(): the CAS
+  | close              -- controlConn.close(): the swap
   | closeConn          -- … closes the current control connection and returns
 deriving DecidableEq, Repr
 
@@ -70,8 +72,8 @@ def init : St := { state := .starting, hb := .notStarted, cl := .idle, rc := .fr
 
 /-- `retAfterReconn` = the heartbeat goroutine returns when it comes out of reconnect() and sees state == Closing
     (seeded change C17-7; NOT the code that exists);
-    `swapClose` = close() stores Closing whatever the state was (`atomic.SwapInt32(&c.state, Closing) == Started`) instead
-    of `CAS(Started → Closing)` (proposed repair of KF-C17-4; NOT the code that exists) -/
+    `swapClose` = close() stores Closing whatever the state was (`atomic.SwapInt32(&c.state, Closing) == Started`): the
+    code that exists since the repair of KF-C17-4; `false` = the old `CAS(Started → Closing)` (regression theorem only) -/
 def stepG (retAfterReconn swapClose : Bool) (s : St) : Act → Option St
   | .hbStart =>
       if s.hb = .notStarted then
@@ -107,8 +109,8 @@ def stepG (retAfterReconn swapClose : Bool) (s : St) : Act → Option St
       else none
   | .closeConn => if s.cl = .closeConn then some { s with cl := .done } else none
 
-/-- the code that exists -/
-def step (s : St) (a : Act) : Option St := stepG false false s a
+/-- the code that exists (since the repair of KF-C17-4, props/C17.fix-KF-C17-4.diff: close() swaps the state) -/
+def step (s : St) (a : Act) : Option St := stepG false true s a
 
 def runG (b c : Bool) : St → List Act → Option St
   | s, [] => some s
@@ -116,7 +118,7 @@ def runG (b c : Bool) : St → List Act → Option St
     | some s' => runG b c s' as
     | none => none
 
-def run (s : St) (as : List Act) : Option St := runG false false s as
+def run (s : St) (as : List Act) : Option St := runG false true s as
 
 /-- steps of the heartbeat goroutine (incl. the reconnect attempt it owns) -/
 def hbAct (s : St) : Act → Bool
